@@ -4,7 +4,7 @@ namespace SaModel.Lemmas.C07Gen
 open SaModel SaModel.Trace SaModel.Generated.CoerceArms
 set_option maxRecDepth 1000000
 
-/-- 36 × 36 constructors × the observations of the guards that can occur with them (`allAbs`): 2 812 rows -/
+/-- 36 × 36 constructors × the observations of the guards that can occur with them (`allAbs`): 2 806 rows -/
 theorem symTable_5 : symTable arms (optionAt true false true) = true := by decide +kernel
 
 end SaModel.Lemmas.C07Gen
